@@ -1332,6 +1332,29 @@ fn gen_case(rng: &mut Rng, n: usize, tier: &str, scratch: &std::path::Path, out:
     let mut changes = 0usize;
     let mut last_syms = String::new();
     let mut pool: Vec<(Vec<Syllable>, String)> = setup.usr.iter().chain(setup.sys.iter()).take(6).map(|e| (e.key.clone(), e.text.clone())).collect();
+    if capi {
+        // a walk over the file first: for a few one-syllable keys of the system dictionary a user phrase is added under
+        // the same key (the syllable is then accepted whatever the file answers), the syllable is typed and its list
+        // opened: the list must hold the file's phrases too (C07's oracle), whatever the order of the sibling records
+        let singles: Vec<usize> = (0..world.syls.len()).filter(|i| setup.sys.iter().any(|e| e.key.len() == 1 && e.key[0] == world.syls[*i])).collect();
+        for _ in 0..singles.len().min(3) {
+            let i = *rng.pick(&singles);
+            let mut pre: Vec<Op> = vec![Op::CUpAdd(cjk(rng).to_string(), world.syls[i].to_string())];
+            for k in &world.keys[i] {
+                pre.extend(to_c_op(key_op(*k, none), rng, &opts_vec(&ed.editor_options())));
+            }
+            pre.push(Op::COpen);
+            pre.push(Op::CClose);
+            pre.push(Op::CReset);
+            for op in pre {
+                stats.ops += 1;
+                if !step(&mut ed, &op, out) {
+                    stats.panics += 1;
+                    return;
+                }
+            }
+        }
+    }
     for _ in 0..max_ops {
         let selecting = ed.is_selecting();
         let r = rng.below(100);
